@@ -512,7 +512,7 @@ class Extract:
         if m and m.group(1) in self.ptroff and (m.group(2), m.group(3)) in (("<", "text_start"), (">", "text_end")):
             return ".%s %d %d" % ("offLtStart" if m.group(2) == "<" else "offGtEnd", self.ptr[m.group(1)], self.ptroff[m.group(1)])
         m = re.fullmatch(W + r" (>=|<=|>|<) (\w+)", s)
-        if m and m.group(1) in self.num and m.group(1).startswith("%rd:") and self.is_word(m.group(3)):
+        if m and m.group(1) in self.num and self.is_word(m.group(3)):
             n, w, op = self.num[m.group(1)], self.we([m.group(3)]), m.group(2)
             if op == ">":
                 return ".numGtWord %d %s" % (n, w)
@@ -621,6 +621,12 @@ class Extract:
             if e is not None and (e.startswith("(.byteOf") or (e.startswith("(.lowBits") and m.group(1) != "uint8_t")):
                 self.wexpr[m.group(2)] = e
                 return []
+        m = re.fullmatch(r"(?:uint8_t|uint32_t|int32_t|int) (\w+) = (\w+) \[ (\d+) \]", s)
+        if m and m.group(2) in self.ptr and m.group(2) not in self.ptroff:          # `uint8_t c = text[0];`
+            if m.group(1) not in self.num:
+                self.num[m.group(1)] = len(self.num)
+            self.numdef.pop(m.group(1), None)
+            return [".readByte %d %d %s" % (self.num[m.group(1)], self.ptr[m.group(2)], m.group(3))]
         m = re.fullmatch(r"uint32_t (\w+) = rule \[ (\d+) \+ \( (\w+) \[ (\d+) \] >> 5 \) \]", s)
         if m and m.group(3) in self.ptr:
             self.bitword[m.group(1)] = (int(m.group(2)), m.group(3), m.group(4))
